@@ -137,7 +137,7 @@ Local ==
          visB == Visible(E, R, Ev.cont)
          visA == IF ok THEN Visible(E2, R2, Ev.cont) ELSE <<>>
          seqOk ==
-           CASE call.a = "ins" ->
+           CASE call.a \in {"ins", "emb"} ->
                   /\ Len(visA) >= Len(visB)
                   /\ SubSeq(visA, 1, call.i) = SubSeq(visB, 1, call.i)
                   /\ SubSeq(visA, call.i + 1 + (Len(visA) - Len(visB)), Len(visA)) = SubSeq(visB, call.i + 1, Len(visB))
@@ -147,6 +147,7 @@ Local ==
                   visA = SubSeq(visB, 1, call.i) \o SubSeq(visB, call.i + call.n + 1, Len(visB))
              [] call.a = "set" -> Len(visA) = 1 /\ visA[1] \in newIds
              [] call.a = "rem" -> visA = <<>>
+             [] call.a = "fmt" -> visA = visB
              [] OTHER -> TRUE
          XD2 == IF call.a \in {"del", "rem"} THEN XD \cup (Range(visB) \ Range(visA)) ELSE XD
          chk == IF ~ok THEN << <<"C04_Placed", FALSE>> >>
